@@ -29,7 +29,7 @@ WHOLE = {"CopyTo", "CopyFrom", "CopyCtor", "MoveCtor", "MoveAssign", "SelfAssign
 KEYMAPS = {"ii": [1, 2, 3, 4], "ss": [1, 2, 3, 4], "si": [1, 2], "is": [1, 4], "Li": [1, 2, 3]}
 KEYMAPS_QUICK = {"ii": [1, 3], "ss": [1, 2, 3, 4], "si": [1], "is": [4], "Li": [1]}
 NAMEMAPS = [1, 2, 3, 4]
-PO_TYPES = ["int", "uint", "i64", "short", "char", "float", "double", "bool", "str", "cstr", "ptr", "vec3f", "vec3i", "vec2f", "thr"]
+PO_TYPES = ["int", "uint", "i64", "short", "char", "float", "double", "bool", "str", "cstr", "ptr", "vec3f", "vec3i", "vec2f", "thr", "weq"]
 
 
 # ---------------------------------------------------------------------------
@@ -440,6 +440,18 @@ def run_rest(chk, quick, rnd, procs, exe, exe2, cidx, graphs, cases, po_cfgs):
                                   for v in ["ii", "ss", "si", "is", "Li", "tt", "iu"]], "c10-big")
     nexec = 20 if quick else 150
     po_acts = [rand_po_actions(rnd, 250) for _ in range(nexec)]
+    # directed: every type's value overwritten by another value of the SAME type (both orders), read back each time, then by
+    # the value of another parameter; for float / double (1, 2 = the two zeros) and weq the two values compare equal under
+    # the type's operator== although they are distinguishable (seeded/C10-07)
+    overwrite = []
+    for t in PO_TYPES:
+        for v1, v2 in ((1, 2), (2, 1)):
+            overwrite += [{"a": "SetParam", "arg": {"n": 1, "t": t, "v": v1}}, {"a": "GetParam", "arg": {"n": 1, "t": t, "d": 99}},
+                          {"a": "SetParam", "arg": {"n": 1, "t": t, "v": v2}}, {"a": "GetParam", "arg": {"n": 1, "t": t, "d": 99}},
+                          {"a": "SetParam", "arg": {"n": 2, "t": t, "v": v1}}, {"a": "SetParamFrom", "arg": {"n": 1, "n2": 2}},
+                          {"a": "GetParam", "arg": {"n": 1, "t": t, "d": 99}}]
+    po_acts.append(overwrite)
+    chk.cov["directed_same_type_overwrites"] = {"types": len(PO_TYPES), "types_whose_two_values_compare_equal": ["float", "double", "weq"]}
     add_trace("ParamObjectTrace", [(exe2, [c["h"] for c in bigpo], "c10-bigpo", "ParameterizedObject", {}),
                                    (exe2, po_acts, "c10-po", "ParameterizedObject", {})] +
                                   [(exe2, [rand_po_actions(rnd, 250, nnames=4) for _ in range(nexec // 2)], "c10-po-nm%d" % nm,
